@@ -89,7 +89,8 @@ def get_stem(filename):
     Extract RAW stem from RAW filename.
     """
     raw_path = Path(filename)
-    return raw_path.parent / ''.join(raw_path.stem.split('.')[:-1])
+    # Drop only the trailing file number: the stem itself may contain dots
+    return raw_path.parent / '.'.join(raw_path.stem.split('.')[:-1])
 
 
 def get_raw_params(input_file_stem,
